@@ -81,6 +81,7 @@ class Summaries:
             E["<%s as core::iter::Iterator>::nth" % it] = self.iter_nth
             E["<%s as core::iter::Iterator>::size_hint" % it] = self.iter_size_hint
             E["<%s as core::iter::ExactSizeIterator>::len" % it] = self.iter_len
+            E["<%s as core::iter::Iterator>::find" % it] = self.iter_find
             E["<%s as core::iter::Iterator>::position" % it] = self.iter_position
             E["<%s as core::iter::Iterator>::rposition" % it] = self.iter_position
         E["<core::iter::Enumerate<I> as core::iter::Iterator>::next"] = self.enumerate_assume
@@ -381,6 +382,30 @@ class Summaries:
             st.add_fact(r2, rem, -1)
             st.env[key] = new_obj(("iter", region, r2, None, rev, lin))
             out.append((st, some(i)))
+        return out
+
+    def iter_find(self, st, fr, inst, t, callee, args):
+        """Iterator::find(&mut self, pred) on a slice iterator with a capture-free predicate: None (iterator exhausted) or Some(&element)
+        with an unknown smaller remainder left"""
+        from .engine import Fields
+        f = args[1] if len(args) > 1 else None
+        if f is not None and not (isinstance(f, Fields) and not f.d):
+            return None
+        oa, key = self.iter_obj(st, args[0])
+        if oa is None or key is None:
+            return None
+        _, region, rem, pos0, rev, lin = G.obj[oa]
+        R = st.get_iv(rem)
+        out = []
+        s0 = st.copy()
+        s0.env[key] = new_obj(("iter", region, const_int(0), None, rev, lin))
+        s0.ghost[("exh", lin)] = const_int(1)
+        out.append((s0, none()))
+        if R[1] >= 1 and st.set_iv(rem, max(R[0], 1), R[1]):
+            r2 = new_int(0, R[1] - 1)
+            st.add_fact(r2, rem, -1)
+            st.env[key] = new_obj(("iter", region, r2, None, rev, lin))
+            out.append((st, some(self.elem_ptr(region))))
         return out
 
     def generic_count(self, st, fr, inst, t, callee, args):
